@@ -285,7 +285,18 @@ impl<'a, 'b> TagBlock<'a, 'b> {
             return Ok(None);
         }
 
-        let element = self.iter.next().expect("File shouldn't end before EOI.");
+        // A block nested inside this one may already have consumed the shared
+        // cursor up to the end of the input (its error ignored by the caller).
+        let element = match self.iter.next() {
+            Some(element) => element,
+            None => {
+                return Error::with_msg(format!(
+                    "Unclosed block. {{% {} %}} tag expected.",
+                    self.end_tag
+                ))
+                .into_err();
+            }
+        };
 
         if element.as_rule() == Rule::EOI {
             return error_from_pair(
@@ -413,7 +424,12 @@ impl<'a, 'b> TagBlock<'a, 'b> {
             end_pos = Some(element_as_span.end_pos());
         }
 
-        panic!("Function must eventually find either a Rule::EOI or a closing tag.")
+        // The shared cursor was already exhausted by a nested block.
+        Error::with_msg(format!(
+            "Unclosed block. {{% {} %}} tag expected.",
+            self.end_tag
+        ))
+        .into_err()
     }
 
     /// A convenient method that parses every element remaining in the block.
